@@ -271,7 +271,7 @@ def unit_strategy(small=False):
         level = draw(st.sampled_from(cgstage.LEVELS))
         opt = draw(st.sampled_from(cgstage.OPTS))
         if small or draw(st.integers(0, 99)) < 65:
-            floats = draw(st.integers(0, 99)) < c29.FLOAT_PCT[target] // 2
+            floats = target not in c29.ARM and draw(st.integers(0, 99)) < c29.FLOAT_PCT[target] // 2
             opts = gencc.Options(floats=floats, max_funcs=1 if small else 2, max_stmts=3 if small else 7, structs=not small)
             p = draw(gencc.programs(opts))
             return {"kind": "c", "src": cgstage.adapt_c(p["src"], target), "target": target, "level": level, "opt": opt}
